@@ -254,7 +254,7 @@ CHECKS["C13"] = dict(
 
 CHECKS["C14"] = dict(
     technique="Coq proofs over R: every objective (ELBO, multi-sample ELBO, VR, CUBO, self-normalised KLpq, [S] and [S,K]) returns exactly c when log p - log q = c for every draw (any sample count, alpha, n); conjugate-pair identities (log joint - log posterior is the constant log marginal) incl. through exp/sigmoid/affine transforms with their Jacobians; Paramcoq enclosures; correspondence on recorded p()/q() tensors of JSON-built conjugate models, fresh-draw and pairing checks",
-    text="34 theorems in prop/C14.v: tight_elbo / _elbo_multi / _vr / _vr_multi / _cubo / _cubo_multi / _klpq / _klpq_multi (list induction, "
+    text="35 theorems in prop/C14.v: tight_elbo / _elbo_multi / _vr / _vr_multi / _cubo / _cubo_multi / _klpq / _klpq_multi (list induction, "
          "every sample count), elbo_entropy_identity and elbo_entropy_tight_iff (the analytic-entropy ELBO equals c plus a zero-mean "
          "Monte-Carlo term: the honest form of 'for every draw' for that variant), logsumexp_spec, bayes_constant_* for gamma-exponential, "
          "gamma-Poisson, normal-normal, beta-binomial and their transformed versions, the bivariate normal with a FULL noise covariance "
